@@ -10,7 +10,8 @@ from common import cbytes, cbool, clist
 IMPORTS = ('From PND Require Import Lib.Text Model.Negotiation Model.NegoPdu Model.Dimse Corr.CorrNego '
            'Model.PduWf Model.Pdu.\n')
 
-TS_UNIVERSE = ['1.2.840.10008.1.2', '1.2.840.10008.1.2.1', '1.2.840.10008.1.2.2', '1.2.840.10008.1.2.4.50']
+TS_UNIVERSE = ['1.2.840.10008.1.2', '1.2.840.10008.1.2.1', '1.2.840.10008.1.2.2', '1.2.840.10008.1.2.4.50',
+               '1.2.840.10008.1.2.4.201', '1.3.46.670589.33.1.4.1']     # HTJ2K (newer than pydicom's dictionary), a private one
 ABS_UNIVERSE = ['1.2.840.10008.1.1', '1.2.840.10008.5.1.4.1.1.2', '1.2.840.10008.5.1.4.1.2.1.1', '1.2.3.999']
 
 
@@ -56,6 +57,13 @@ def observe_accept(served, ts, own, proposals, peer_max, variant=0):
     from pynetdicom2 import asceprovider, exceptions, dimsemessages, userdataitems
     acc = object.__new__(asceprovider.AssociationAcceptor)
     acc.ae = StubAE(dict((s, served_service) for s in served), ts)
+    if variant in (2, 4, 6) and served:
+        scu_first = list(served[:1 + variant // 3]) + [p[1] for p in proposals[:1] if p[1] not in served]
+        real = make_entity([('scu', scu_first), ('scp', list(served))], ts, own)
+        for c in list(real.supported_scp):
+            real.supported_scp[c] = served_service
+        real.timeout = 1
+        acc.ae = real
     acc.dul = impl.StubDul()
     acc.max_pdu_length = own
     acc.sop_classes_as_scp = {}
